@@ -30,7 +30,10 @@ Three input spaces:
   from one routine into the next shows up there; and `forms` = every condition / switch header / case header / assignment / context form in
   every header position, macros (substitution, return, private labels, nesting).
 * `random_programs(seed, n)` - seeded random programs of size <= 40 (program i depends only on (seed, i)).
-* `flat_space(tier)` / `flat_programs` - exactly the quantifier of property C13 (flat structured programs).
+* `flat_space(tier, seed)` / `flat_programs` - exactly the quantifier of property C13 (flat structured programs): exhaustive
+  families (one block statement in every context, pairs / triples of items, two routines, `flat-or-counts` = every
+  combination of 1..3 (4) `||` conditions per header in chains of 2..3 (4) branches followed by each kind of next item)
+  and `flat-random` = seeded random flat programs (<= 6 items, chains <= 4 branches, <= 4 `||` terms, <= 4 headers).
 
 Statically invalid skeletons (jump to an undefined label, a label defined twice, a routine consisting only of labels)
 are filtered by `valid()`; they are not programs.  Programs whose label/jump graph has an op-free cycle are *not*
@@ -299,10 +302,14 @@ class Renderer:
 
     POOLS = ("opargs", "p1", "assign", "p2", "msg", "marg", "T", "cond", "swh", "caseh", "para", "casem", "casex", "wkind")
 
-    def __init__(self, start: int = 0, avoid_scn_caseop: bool = True, macros: bool = True, phase: int = 0):
+    def __init__(
+        self, start: int = 0, avoid_scn_caseop: bool = True, macros: bool = True, phase: int = 0, cross_cases: bool = True
+    ):
         """phase: where the round-robin of every pool starts (families pass the program index, so that over a family
-        every concrete form appears in every position)"""
+        every concrete form appears in every position); cross_cases: one case header in nine is a menu case under a
+        non-menu switch or the other way round"""
         self.macros = macros
+        self.cross_cases = cross_cases
         self.n = start  # running number: distinguishes ops / values
         # per pool round-robin counters; different strides per pool so that the pools are not in lockstep
         self.k: dict = {p: phase * (j + 1) for j, p in enumerate(self.POOLS)} if phase else {}
@@ -438,7 +445,7 @@ class Renderer:
     def case_header(self, menu_switch: bool = False) -> Any:
         """menu case headers mostly under the menu switches (message_SwitchMenu*), regular ones under the others; one
         header in nine is of the other kind (the language allows every combination)"""
-        cross = self.turn("casex", 9) == 8
+        cross = self.turn("casex", 9) == 8 and self.cross_cases
         n = self.num()
         if menu_switch != cross:
             j = self.turn("casem", 3)
@@ -1084,14 +1091,15 @@ FLAT_TIERS = {
     # full: block statements alone in a routine (with / without a plain statement before / after);
     # pair: two items in a row from a smaller item set; routines: two routines with one block statement each
     "quick": dict(full=dict(B=1, branches=3, C=2, cases=3), pair=dict(B=1, branches=2, C=1, cases=2),
-                  routines=dict(B=1, branches=2, C=1, cases=2), contexts=3, triple=None),
+                  routines=dict(B=1, branches=2, C=1, cases=2), contexts=3, triple=None, or_counts=(3, 3), random=3000),
     "thorough": dict(full=dict(B=2, branches=3, C=2, cases=4), pair=dict(B=1, branches=2, C=2, cases=3),
-                     routines=dict(B=1, branches=2, C=1, cases=2), contexts=4, triple=dict(B=1, branches=2, C=1, cases=2)),
+                     routines=dict(B=1, branches=2, C=1, cases=2), contexts=4, triple=dict(B=1, branches=2, C=1, cases=2),
+                     or_counts=(4, 4), random=50000),
 }  # fmt: skip
 _T = (("T",),)
 
 
-def flat_space(tier: str) -> list:
+def flat_space(tier: str, seed: int = 0) -> list:
     t = FLAT_TIERS[tier]
     fams = []
 
@@ -1122,10 +1130,93 @@ def flat_space(tier: str) -> list:
 
     routines2 = Prod(lambda x, y: ((x,) + _T, (y,) + _T), rt, rt)
     if tier == "quick":
-        fams.append(Family("flat-routines-sample", Prod(lambda i: routines2[2 * i], Lit(*range(len(routines2) // 2))), multi))
+        fams.append(Family("flat-routines-sample", Prod(lambda i: routines2[4 * i], Lit(*range(len(routines2) // 4))), multi))
     else:
         fams.append(Family("flat-routines", routines2, multi))
+
+    # the NUMBER of `||` conditions per if / elseif header: every combination of 1..K conditions in chains of 2..N
+    # branches, with / without else, bodies all empty / all plain / alternating, no / all / alternating `not`, followed by
+    # each kind of next item (the structuring passes renumber graph edges while they merge `||` headers)
+    def no_cross(block: tuple, i: int) -> A.Program:
+        return make_program(
+            [block], header_variant=(i % 7) * 2, rnd=Renderer(macros=False, avoid_scn_caseop=False, phase=i, cross_cases=False)
+        )
+
+    fams.append(Family("flat-or-counts", Lit(*_or_count_blocks(*t["or_counts"])), no_cross))
+    # seeded random flat programs
+    n_random = t["random"]
+    fams.append(
+        Family("flat-random", Lit(*range(n_random)), lambda i, _i: random_flat_indexed(seed, i))
+    )
     return fams
+
+
+def _or_count_blocks(max_conds: int, max_branches: int) -> list:
+    import itertools
+
+    nexts = [
+        (),
+        (("P1",),),
+        (("if", ((False, 1, (("P1",),)),), None),),
+        (("if", ((False, 2, (("P1",),)),), (("P2",),)),),
+        (("switch", ((False, (("P1",), ("break",))), (True, (("P2",), ("break",))))),),
+        (("switch", ((False, (("P1",), ("break",))), (False, (("break",),)))),),
+    ]
+    out = []
+    for n in range(2, max_branches + 1):
+        for counts in itertools.product(range(1, max_conds + 1), repeat=n):
+            for has_else in (False, True):
+                for body_mode in range(3):  # all empty, all plain, alternating
+                    for neg_mode in range(2 if max_conds <= 3 else 3):  # none, alternating, all
+                        branches = []
+                        for k, nc in enumerate(counts):
+                            body = () if body_mode == 0 or (body_mode == 2 and k % 2) else ((("P1",), ("P2",))[k % 2],)
+                            neg = neg_mode == 2 or (neg_mode == 1 and k % 2 == 0)
+                            branches.append((neg, nc, body))
+                        else_body = ((("P1",),) if body_mode else ()) if has_else else None
+                        chain = ("if", tuple(branches), else_body)
+                        for nx in nexts:
+                            out.append((chain,) + nx + _T)
+    return out
+
+
+def random_flat_indexed(seed: int, i: int) -> A.Program:
+    """seeded random program of C13's flat class (program i depends only on (seed, i)): 1-2 routines, up to 6 top-level
+    items, chains <= 4 branches with <= 4 `||` terms, switches with <= 4 headers (grouped cases, default anywhere),
+    block bodies of 0..2 plain statements, one terminator"""
+    rng = random.Random(f"{seed}/flat/{i}")
+
+    def plains(lo: int, hi: int) -> tuple:
+        return tuple((("P1",), ("P2",))[rng.random() < 0.3] for _ in range(rng.randint(lo, hi)))
+
+    def chain() -> tuple:
+        branches = tuple((rng.random() < 0.35, rng.randint(1, 4), plains(0, 2)) for _ in range(rng.randint(1, 4)))
+        return ("if", branches, plains(0, 2) if rng.random() < 0.5 else None)
+
+    def switch() -> tuple:
+        n = rng.randint(1, 4)
+        default_at = rng.randrange(n) if rng.random() < 0.6 else -1
+        cases = []
+        for k in range(n):
+            last = k == n - 1
+            if not last and rng.random() < 0.35:
+                cases.append((k == default_at, ()))  # grouped with the next header
+            else:
+                cases.append((k == default_at, plains(0, 2) + (("break",),)))
+        return ("switch", tuple(cases))
+
+    def routine() -> tuple:
+        items = []
+        for _ in range(rng.randint(1, 6)):
+            r = rng.random()
+            items.append(chain() if r < 0.45 else switch() if r < 0.8 else plains(1, 1)[0])
+        return tuple(items) + _T
+
+    bodies = [routine() for _ in range(1 if rng.random() < 0.85 else 2)]
+    rnd = Renderer(macros=False, avoid_scn_caseop=False, phase=rng.randint(0, 10000), cross_cases=False)
+    p = make_program(bodies, header_variant=rng.randint(0, 6) * 2, coro=rng.random() < 0.1, rnd=rnd)
+    assert is_flat(p)
+    return p
 
 
 def is_flat(p: A.Program) -> bool:
